@@ -124,6 +124,49 @@ def gen_tree(rng, depth=0, nmax=6):
     return out          # list of [key, leaf] keeps order and non-str keys
 
 
+def retype_tree(rng, tree):
+    """Same keys and shapes, values that do not fit the stored types: what a
+    second store under an existing name hands over (ints become fractional
+    floats, strings grow, arrays change dtype)."""
+    out = []
+    for k, leaf in tree:
+        out.append([k, retype_leaf(rng, leaf)])
+    return out
+
+
+def retype_leaf(rng, leaf):
+    t = leaf['t']
+    if t in ('float', 'npfloat'):
+        return {'t': 'float', 'v': rng.uniform(-50, 50)}
+    if t in ('int', 'npint'):
+        return {'t': 'float', 'v': rng.randint(-1000, 1000) + 0.625}
+    if t == 'bool':
+        return {'t': 'int', 'v': rng.randint(2, 99)}
+    if t == 'str':
+        return {'t': 'str', 'v': leaf['v'] + 'longer_' * rng.randint(1, 12)}
+    if t == 'array':
+        dt = {'i8': 'f8', 'i4': 'f8', 'f4': 'f8', 'b1': 'i8',
+              'f8': 'f8'}[leaf['dtype']]
+        return {'t': 'array', 'dtype': dt, 'shape': list(leaf['shape']),
+                'seed': rng.randrange(2**31), 'nan': False}
+    if t in ('list', 'tuple'):
+        return {'t': t, 'v': [rng.randint(-9, 9) + 0.375 for _ in leaf['v']]}
+    if t == 'list2d':
+        return {'t': t, 'v': [[rng.uniform(-1, 1) for _ in r]
+                              for r in leaf['v']]}
+    if t == 'strlist':
+        return {'t': t, 'v': [x + 'longer_' * rng.randint(1, 12)
+                              for x in leaf['v']]}
+    if t == 'ragged':
+        return {'t': t, 'v': [[rng.uniform(-1, 1) for _ in r]
+                              for r in leaf['v']]}
+    if t == 'dictlist':
+        return {'t': t, 'v': [retype_tree(rng, x) for x in leaf['v']]}
+    if t == 'dict':
+        return {'t': t, 'v': retype_tree(rng, leaf['v'])}
+    raise ValueError(t)
+
+
 def tree_from_object(d):
     """Typed-leaf tree (same shape as gen_tree's) for a real result dictionary:
     leaves keep the object itself under 'obj'."""
@@ -287,10 +330,37 @@ def generate(run_seed, tier):
             elif r < 0.30:
                 vals = sorted([c.uniform(600, 2000)
                                for _ in range(c.randint(2, 5))], reverse=True)
-                mcfg['tp'] = {'kind': 'tarray', 'values': vals}
+                mcfg['tp'] = {'kind': 'tarray', 'values': vals,
+                              'reverse': c.random() < 0.4}
                 if c.random() < 0.5:
                     mcfg['tp']['p_points'] = sorted(
                         [10 ** c.uniform(0, 6) for _ in vals], reverse=True)
+            # every remaining constructor argument of planet, star,
+            # temperature profile and chemistry away from its default
+            if c.random() < 0.6:
+                mcfg['planet'].update(
+                    distance=c.uniform(0.02, 3.0), impact=c.uniform(0, 0.9),
+                    period=c.uniform(0.5, 30), albedo=c.uniform(0, 0.9),
+                    transit_time=c.uniform(1000, 20000))
+                mcfg['star'].update(
+                    distance=c.uniform(2, 80), magK=c.uniform(4, 14),
+                    mass=c.uniform(0.3, 2.0), metallicity=c.uniform(0.2, 3.0))
+            if mcfg['tp']['kind'] == 'guillot' and c.random() < 0.6:
+                mcfg['tp']['T_int'] = c.uniform(0, 600)
+            if mcfg['tp']['kind'] == 'rodgers' and c.random() < 0.5:
+                n = mcfg['nlayers']
+                mcfg['tp']['cov'] = [[c.uniform(0.05, 1.0) for _ in range(n)]
+                                     for _ in range(n)]
+            r = c.random()
+            if r < 0.15:
+                mcfg['fill'] = ['H2']
+                mcfg['cia_pairs'] = ['H2-H2']
+            elif r < 0.35:
+                mcfg['fill'] = ['H2', 'He', 'N2']
+                for m in mcfg['molecules']:
+                    if m['name'] == 'N2':
+                        m['name'] = 'Ar'
+                mcfg['ratio'] = [c.uniform(0.05, 0.3), c.uniform(0.001, 0.05)]
         cfg['model'] = mcfg
         cfg['obs'] = S.gen_obs(c, mcfg)
     if cfg['part'] == 'spectrum':
@@ -301,8 +371,11 @@ def generate(run_seed, tier):
         nsub = o.randint(5, max(5, mcfg['opac']['ngrid'] - 4))
         for _ in range(o.randint(1, 4)):
             sub = None
-            if o.random() < 0.5:
+            r = o.random()
+            if r < 0.4:
                 sub = [o.randint(0, mcfg['opac']['ngrid'] - nsub), nsub]
+            elif r < 0.6:
+                sub = ['warp', o.choice([0.6, 0.8, 1.3, 1.7])]
             ops.append(['store_spectrum', o.choice(['flux', 'flux', 'simple',
                                                     'native']),
                         o.choice([1, 3, 6]), 'Spectra%d' % len(ops), sub])
@@ -328,6 +401,13 @@ def generate(run_seed, tier):
             else:
                 ops += [['close'], ['open', 'a']]
                 groups = [[]]
+                prev = [op for op in ops if op[0] == 'store' and not op[1]]
+                if prev and o.random() < 0.5:
+                    # a name of an earlier phase is stored again
+                    src = o.choice(prev)
+                    ops.append(['restore', [], src[2],
+                                retype_tree(o, src[3]) if o.random() < 0.7
+                                else gen_tree(o)])
     ops.append(['close'])
     return {'config': cfg, 'ops': ops}
 
@@ -350,6 +430,7 @@ def plan_ops(ops):
     groups = set()
     all_groups = set()
     names = set()
+    stored = set()
     for op in ops:
         k = op[0]
         if k == 'open':
@@ -376,6 +457,12 @@ def plan_ops(ops):
             full = parent + (op[2],)
             if parent in groups and full not in all_groups:
                 all_groups.add(full)
+                stored.add(full)
+                out.append(op)
+        elif k == 'restore':
+            parent = tuple(op[1])
+            full = parent + (op[2],)
+            if parent in groups and full in stored:
                 out.append(op)
         elif k == 'store_solution':
             if ('Output',) not in all_groups:
@@ -543,6 +630,7 @@ def execute(case, keep_text=False):
             shutil.rmtree(scratch, ignore_errors=True)
             return out
         out.bump('probes', 'solution_store_run')
+    restore_outcome = {}       # full name -> 'accepted' | 'refused'
     spectra_written = {}       # group name -> (binner kind, size, native result)
     written_model = [None]
     types_seen = set()
@@ -583,12 +671,35 @@ def execute(case, keep_text=False):
                 if p is None:
                     continue
                 p.store_dictionary(materialise(op[3]), group_name=op[2])
+            elif k == 'restore':
+                parent = tuple(op[1])
+                p = o if not parent else groups.get(parent)
+                if p is None:
+                    continue
+                # a name that already exists: either refused (file unchanged)
+                # or accepted (file holds the new values)
+                try:
+                    p.store_dictionary(materialise(op[3]), group_name=op[2])
+                    verdict = 'accepted'
+                except Exception:
+                    verdict = 'refused'
+                if r == 0:
+                    restore_outcome[parent + (op[2],)] = verdict
             elif k == 'store_spectrum':
                 if op[1] not in binners:
                     binners[op[1]] = make_binner(op[1], obs)
                 binner = binners[op[1]]
                 sub = op[4] if len(op) > 4 else None
-                if sub:
+                if sub and sub[0] == 'warp':
+                    # a result on another native grid with the same number of
+                    # points and the same end points (e.g. another spacing)
+                    res = model.model()
+                    g = np.array(res[0], dtype=float)
+                    ga = g[0] + (g[-1] - g[0]) * \
+                        ((g - g[0]) / (g[-1] - g[0])) ** sub[1]
+                    ga[0], ga[-1] = g[0], g[-1]
+                    res = (ga,) + tuple(res[1:])
+                elif sub:
                     g = S.native_grid(cfg['model'])
                     res = model.model(wngrid=g[sub[0]:sub[0] + sub[1]])
                 else:
@@ -596,10 +707,10 @@ def execute(case, keep_text=False):
                 spec = binner.generate_spectrum_output(
                     res, output_size=OutputSize(op[2]))
                 if r == 0:
-                    spectra_written[op[3]] = (op[1], op[2],
-                                              [np.array(res[0]),
-                                               np.array(res[1]),
-                                               np.array(res[2])])
+                    spectra_written[op[3]] = (
+                        op[1] + (':warped' if sub and sub[0] == 'warp' else ''),
+                        op[2], [np.array(res[0]), np.array(res[1]),
+                                np.array(res[2])])
                 o.store_dictionary(spec, group_name=op[3])
             elif k == 'store_solution':
                 sol = fitres['solutions'][0]
@@ -675,8 +786,18 @@ def execute(case, keep_text=False):
                     if par is None:
                         continue
                     node = par.get(op[2])
+                    full = tuple(op[1]) + (op[2],)
+                    tree = op[3]
+                    for op2 in ops:
+                        if op2[0] == 'restore' and \
+                                tuple(op2[1]) + (op2[2],) == full and \
+                                restore_outcome.get(full) == 'accepted':
+                            tree = op2[3]
+                    if full in restore_outcome:
+                        out.bump('probes', 'stored_again_'
+                                 + restore_outcome[full])
                     compare_leaf(viol, list(op[1]) + [op[2]],
-                                 {'t': 'dict', 'v': op[3]}, node, None)
+                                 {'t': 'dict', 'v': tree}, node, None)
             if fitres:
                 sol = fitres['solutions'][0]
                 opt = fitres['opts'][0]
@@ -727,6 +848,8 @@ def execute(case, keep_text=False):
 
 def check_spectrum_group(viol, out, g, bkind, size, res, cfg):
     native_wn, native_y, native_tau = res
+    warped = bkind.endswith(':warped')
+    bkind = bkind.split(':')[0]
     keys = set(g.keys())
 
     def arr(k):
@@ -787,6 +910,11 @@ def check_spectrum_group(viol, out, g, bkind, size, res, cfg):
                            and r is not None
                            for c, w, r in zip(bw, arr('binned_wnwidth'), rb)])
         rbv = np.array([r if r is not None else np.nan for r in rb])
+        if warped:
+            # the independent overlap-mean reference is only calibrated on
+            # regularly spaced native grids (C05 ground otherwise)
+            inside[:] = False
+            out.bump('probes', 'same_length_other_spacing')
         if inside.any():
             out.bump('steps', 'interior_bins_checked', int(inside.sum()))
         if inside.any() and not np.allclose(arr('binned_spectrum')[inside],
@@ -813,18 +941,27 @@ def _ctor_values(obj):
     if n == 'Guillot2010':
         return {'T_irr': obj.T_irr, 'kappa_irr': obj.kappa_ir,
                 'kappa_v1': obj.kappa_v1, 'kappa_v2': obj.kappa_v2,
-                'alpha': obj.alpha}
+                'alpha': obj.alpha, 'T_int': obj.T_int}
     if n == 'Rodgers2000':
+        cov = obj._covariance
+        if cov is None:
+            cov = obj.gen_covariance()
         return {'layers': tuple(float(x) for x in obj._T_layers),
-                'corr': obj._tp_corr_length}
+                'corr': obj._tp_corr_length,
+                'cov': tuple(float(x) for x in np.ravel(cov))}
     if n == 'TemperatureArray':
         pp = getattr(obj, '_p_profile', None)
         return {'values': tuple(float(x) for x in obj._tp_profile),
                 'p_points': () if pp is None else tuple(float(x) for x in pp)}
     if n == 'Planet':
-        return {'mass': obj.mass, 'radius': obj.radius}
+        return {'mass': obj.mass, 'radius': obj.radius,
+                'distance': obj._distance, 'impact': obj._impact,
+                'period': obj._orbit_period, 'albedo': obj._albedo,
+                'transit_time': obj._transit_time}
     if n == 'BlackbodyStar':
-        return {'temperature': obj.temperature, 'radius': obj.radius}
+        return {'temperature': obj.temperature, 'radius': obj.radius,
+                'distance': obj.distance, 'magnitudeK': obj.magnitudeK,
+                'mass': obj._mass, 'metallicity': obj._metallicity}
     if n == 'SimplePressureProfile':
         return {'nlayers': obj._nlayers, 'pmin': obj._atm_min_pressure,
                 'pmax': obj._atm_max_pressure}
